@@ -21,7 +21,7 @@ ASSUMPTIONS = ["SchedModel (vp/model.py) is the specification of the pending set
                "started: <= now ignored without side effect, during start: now honoured, un_schedule() cancels the earliest "
                "(time, tag) event", "the unit driver advances time one smallest step at a time and consumes due events the way "
                "node.cpp does (advance() only when scheduled now)"]
-FLOORS = {"unit_sequences": {"quick": 20000, "thorough": 500000}, "unit_queries": {"quick": 60000, "thorough": 2000000},
+FLOORS = {"native_gated_wakeups_with_pending_requests": {"quick": 200, "thorough": 4000}, "unit_sequences": {"quick": 20000, "thorough": 500000}, "unit_queries": {"quick": 60000, "thorough": 2000000},
           "graph_sched_queries": {"quick": 3000, "thorough": 40000}, "graph_wakeups": {"quick": 800, "thorough": 10000}}
 BATCH = 25
 
@@ -55,6 +55,94 @@ def model_sequence(ops):
         b_now = 1 if sm.tags.get("b") == now else 0
         out.append(q + (a_now, b_now, res))
     return out
+
+
+def native_model(a, b, active, ops, end):
+    """Scheduler-using node on the runtime's generic path: woken by an active input tick or a due request; the body runs only
+    when both inputs hold a value; requests that are not yet due stay pending whatever happens in between."""
+    from .model import SchedModel
+    sm = SchedModel()
+    for tok in ops.get("S", []):
+        d, tag = (tok[1:].split("@") + [""])[:2]
+        sm.schedule(0 + int(d), tag, 0, started=False)
+    A, B = dict(a), dict(b)
+    va = vb = False
+    runs, out = 0, []
+    gated_with_pending = 0
+    for t in range(0, end):
+        ta, tb = t in A, t in B
+        va, vb = va or ta, vb or tb
+        due = sm.earliest() == t
+        woken = due or ta or (tb and active == "ab")
+        if not woken:
+            continue
+        if va and vb:
+            runs += 1
+            q = sm.queries(t)
+            out.append((t, runs, q[0] if q[1] else -1, q[1], q[2], q[3], q[5]))
+            for tok in ops.get(str(runs), []):
+                d, tag = (tok[1:].split("@") + [""])[:2]
+                sm.schedule(t + int(d), tag, t, started=True)
+        elif sm.events and not due:
+            gated_with_pending += 1
+        if due:
+            sm.consume(t)
+    return out, gated_with_pending
+
+
+def native_phase(exe, rng, tier, seed, d):
+    n = 1500 if tier == "quick" else 30000
+    cases = []
+    for _ in range(n):
+        end = rng.choice([20, 30])
+        def script():
+            ts = sorted(rng.sample(range(1, end), rng.choice([1, 2, 4, 7])))
+            return [(t, rng.randint(1, 99)) for t in ts]
+        a, b = script(), script()
+        if rng.random() < 0.5:
+            b = [(t, v) for t, v in b if t > rng.choice([3, 6, 10])] or b       # b becomes valid late: a-driven wake-ups are gated
+        ops = {}
+        tags = ["a", "b"]
+        rng.shuffle(tags)
+        def toks(k):
+            out = []
+            for _ in range(k):
+                tok = f"s{rng.choice([1, 2, 3, 5, 9, 14])}"
+                if tags and rng.random() < 0.4:
+                    tok += "@" + tags.pop()
+                out.append(tok)
+            return out
+        ops["S"] = toks(rng.choice([1, 2, 3]))
+        for r in rng.sample(range(1, 8), rng.choice([0, 1, 2, 3])):
+            ops[str(r)] = toks(rng.choice([1, 2]))
+        cases.append((a, b, rng.choice(["a", "a", "ab"]), ops, end))
+    ip, op_ = os.path.join(d, "nin.txt"), os.path.join(d, "nout.txt")
+    with open(ip, "w") as f:
+        for a, b, act, ops, end in cases:
+            f.write("a=" + ",".join(f"{t}:{v}" for t, v in a) + " b=" + ",".join(f"{t}:{v}" for t, v in b) + f" active={act} ops=" +
+                    ";".join(k + ":" + ",".join(v) for k, v in ops.items()) + f" end={end}\n")
+    r = subprocess.run([exe, "native", ip, op_], capture_output=True, text=True, timeout=1200)
+    if r.returncode != 0:
+        raise Inconclusive(f"hgunit native failed rc={r.returncode} {r.stderr[-300:]}")
+    viol, bodies, gated = [], 0, 0
+    with open(op_) as f:
+        for k, line in enumerate(f):
+            a, b, act, ops, end = cases[k]
+            exp, g = native_model(a, b, act, ops, end)
+            gated += g
+            bodies += len(exp)
+            toks = [x for x in line.strip().split(";") if x]
+            err = [x for x in toks if x.startswith("X")]
+            got = [tuple(int(v) for v in x[1:].split(",")) for x in toks if x.startswith("E")]
+            if (err or got != exp) and len(viol) < 5:
+                what = (f"run failed: {err[0][1:120]}; " if err else "") + f"body runs (t, n, next, is_scheduled, is_scheduled_now, has a, has b) " \
+                    f"{got[:8]} != pending-set specification {exp[:8]}"
+                viol.append((f"c18n_{seed}_{k}", Violation(f"native scheduler node a={a} b={b} active={act} ops={ops}: {what}"),
+                             {"native": [a, b, act, ops, end]}))
+    os.unlink(ip)
+    os.unlink(op_)
+    return {"violations": viol, "counters": {"native_node_cases": len(cases), "native_body_runs": bodies,
+                                             "native_gated_wakeups_with_pending_requests": gated}}
 
 
 def unit_phase(tier, seed):
@@ -92,7 +180,9 @@ def unit_phase(tier, seed):
                         {"sequence": seqs[k]}))
     os.unlink(ip)
     os.unlink(op_)
-    return {"violations": viol, "counters": {"unit_sequences": len(seqs), "unit_queries": nq},
+    nat = native_phase(exe, rng, tier, seed, d)
+    viol += nat["violations"]
+    return {"violations": viol, "counters": {"unit_sequences": len(seqs), "unit_queries": nq, **nat["counters"]},
             "coverage": {"exhaustive_up_to_length": maxlen, "exhaustive_sequences": exhaustive, "alphabet": ALPHABET,
                          "random_long_sequences": len(seqs) - exhaustive, "exhaustive": True}}
 
